@@ -649,8 +649,37 @@ def g_setitem(g, k, v):
         root = g.base
         root.blocks = _Poison()
         g.base = None
-    if g.bax != 0 or len(g.blocks) != 1:
-        raise Unsupported("assignment into non-row-major / block array")
+    if g.bax != 0:
+        raise Unsupported("assignment into non-row-major array")
+    if len(g.blocks) != 1:
+        # block array (np.tile / np.concatenate of batches): the same masked or full assignment, block by block
+        nb = len(g.blocks)
+        if isinstance(k, tuple) and len(k) > 1:
+            raise Unsupported("partial assignment into a block array")
+        rowsel = k[0] if isinstance(k, tuple) else k
+        if _is_mask(rowsel):
+            if len(rowsel.blocks) != nb or rowsel.layout != g.layout or rowsel.bax != 0:
+                raise Unsupported("mask and block array have different block structures")
+            check_same_rows(g.tag, rowsel.tag)
+            conds = [asbool(b[()]) for b in rowsel.blocks]
+        elif isinstance(rowsel, slice) and rowsel == slice(None):
+            conds = [None] * nb
+        else:
+            raise Unsupported(f"assignment index {k!r} into a block array")
+        if isinstance(v, G):
+            if len(v.blocks) != nb or v.layout != g.layout or v.bax != 0:
+                raise Unsupported("assigning an array with another block structure")
+            check_same_rows(g.tag, v.tag)
+            vals = list(v.blocks)
+        else:
+            vals = [_obj(np.asarray(v, dtype=object))] * nb
+        for bi in range(nb):
+            target = g.blocks[bi]
+            newv = np.broadcast_to(vals[bi], np.shape(target)) if np.shape(vals[bi]) != np.shape(target) else vals[bi]
+            cond = conds[bi]
+            res = vmap((lambda new, old: new) if cond is None else (lambda new, old, cond=cond: z3.If(cond, _sameSort(new, old), old)), newv, target)
+            g.blocks[bi] = res if isinstance(res, np.ndarray) else _obj(res)
+        return
     if isinstance(k, tuple):
         rowsel, rest = k[0], k[1:]
     else:
